@@ -1,7 +1,7 @@
 """Shared engine of the interpreter-based checks: case generation, harness run, Coq comparison."""
 import json
 from . import common as C
-from . import types as T
+from . import tys as T
 from . import catalogue as K
 
 
